@@ -3,7 +3,8 @@ from __future__ import annotations
 
 import ast
 
-from ..astx import un, chain, call_name, paths, params, walk_shallow, single_assignments, inline, names_read, enclosing
+from ..astx import (un, chain, call_name, paths, params, walk_shallow, single_assignments, inline, names_read, enclosing,
+                    inline_self_calls, private_helper_owners, seq)
 from ..core import rule, fixture_for, Unknown
 
 INFO = {
@@ -99,7 +100,7 @@ def check_guard_and_store(ctx, fn, qual):
         guarded = any(un(m) == key for m in missed)
         # which guards precede the generation statement on this path?  (guards are in order; a miss test
         # that textually follows the generation does not count)
-        guarded = guarded and any(getattr(t, "lineno", 0) <= gen_stmt.lineno for t, b in p.guards
+        guarded = guarded and any(seq(t) <= seq(gen_stmt) for t, b in p.guards
                                   if _miss_test(t, b, key) is not None)
         if not guarded:
             if missed:
@@ -140,7 +141,7 @@ def check_guard_and_store(ctx, fn, qual):
 def guard_and_store(ctx):
     """Generation is dominated by a miss test on the key and post-dominated by a store under that key (TS)."""
     for q in GETITEMS:
-        check_guard_and_store(ctx, ctx.func(q), q)
+        check_guard_and_store(ctx, inline_self_calls(ctx.repo, q.rsplit(".", 1)[0], ctx.func(q)), q)
 
 
 @fixture_for("C10.guard-and-store")
@@ -179,6 +180,7 @@ def only_through_cache(ctx):
     """Every call site of a compile sink lies in a function reachable only through the guarded cache regions (CG)."""
     repo = ctx.repo
     n = 0
+    owners = {k: private_helper_owners(repo, set(v)) for k, v in SINK_CALLERS.items()}
     for mname, qual, fn in repo.all_functions():
         for call in [c for c in walk_shallow(fn) if isinstance(c, ast.Call)]:
             cn = call_name(call)
@@ -192,7 +194,7 @@ def only_through_cache(ctx):
             n += 1
             ctx.call_sites += 1
             c = f"{qual}#{simple}"
-            if qual in SINK_CALLERS[simple]:
+            if qual in owners[simple]:
                 ctx.ok(c, call, module=mname, sink=simple)
             else:
                 ctx.violation(c, f"{qual} calls the compile sink {cn}() outside the guarded cache regions: code is "
@@ -265,9 +267,10 @@ def key_provenance(ctx):
         for n in walk_shallow(fn):
             if not (isinstance(n, ast.Subscript) and isinstance(n.ctx, ast.Load)):
                 continue
-            base = un(n.value)
-            is_lookup = base == params(fn)[0] or (isinstance(n.value, ast.Call) and (call_name(n.value) or "") == "getattr"
-                                           and "algebra" in un(n.value))
+            basev = inline(n.value, defs)
+            base = un(basev)
+            is_lookup = base == params(fn)[0] or (isinstance(basev, ast.Call) and (call_name(basev) or "") == "getattr"
+                                                  and "algebra" in un(basev))
             if not is_lookup:
                 continue
             found += 1
